@@ -315,11 +315,14 @@ def render_argparse(desc, name="set_cli_args", indent=""):
 
 
 # ------------------------------------------------------- unrelated statements
-def unrelated_statements(ch, label, colliding, k):
+def unrelated_statements(ch, label, colliding, k, after_def=None):
     """k statements that have nothing to do with the named definition, some of them sharing
-    parameter / method names with it (colliding = names of the target's parameters and function)."""
+    parameter / method names with it (colliding = names of the target's parameters and function).
+    after_def: name bound by the definition when these statements follow it (they may then *use* or re-bind that name)."""
     out = []
     kinds = ["import", "const", "helper", "helper_collide", "class_same_method", "nested_class", "assign_collide", "ann_const"]
+    if after_def:
+        kinds = kinds + ["rebind", "rebind_ann", "use_after"]
     for i in range(k):
         kind = ch.choice("%s.u%d.kind" % (label, i), kinds)
         tag = "%s%d" % (label.replace(".", "_").replace("-", "_"), i)
@@ -332,6 +335,12 @@ def unrelated_statements(ch, label, colliding, k):
             src = "SCALE_%s: float = 1.5" % tag.upper()
         elif kind == "assign_collide":
             src = "%s_backup = %d" % (cname, ch.int("%s.u%d.v" % (label, i), 0, 9))
+        elif kind == "rebind":
+            src = "%s = register(%s)" % (after_def, after_def)  # e.g. a decorator applied by hand
+        elif kind == "rebind_ann":
+            src = "%s_alias: type = %s" % (after_def, after_def) if ch.chance("%s.u%d.al" % (label, i), 0.5) else "%s: object = %s" % (after_def, after_def)
+        elif kind == "use_after":
+            src = "INSTANCES_%s = [%s]" % (tag.upper(), after_def)
         elif kind == "helper":
             src = "def helper_%s(x, y=2):\n    \"\"\"helper\"\"\"\n    return x + y" % tag
         elif kind == "helper_collide":
